@@ -16,6 +16,9 @@ import sys
 import traceback
 
 VERIF_DIR = os.path.dirname(os.path.dirname(os.path.abspath(__file__)))
+# evidence and replay files go under VERIF_OUT when set (mutation drills on scratch copies must not
+# overwrite the evidence of the real tree)
+OUT_DIR = os.environ.get("VERIF_OUT") or VERIF_DIR
 
 ENGINE_OF = {
     "C02": "engines.hist",
@@ -340,7 +343,7 @@ def run_check(prop, tier, seed, workers, budget_scale=1.0, runs_override=None):
         if e is not None:
             known_hit[e["id"]] += len(unknown_items)
             continue
-        path = os.path.join(VERIF_DIR, "replays", f"{prop}-{seed}-{idx}.json")
+        path = os.path.join(OUT_DIR, "replays", f"{prop}-{seed}-{idx}.json")
         trace.write_replay(path, {
             "property": prop, "engine": engine_name, "tier": tier, "seed": seed,
             "index": idx, "case": small, "violation": v_small,
@@ -401,8 +404,8 @@ def run_check(prop, tier, seed, workers, budget_scale=1.0, runs_override=None):
     extra = getattr(eng, "evidence_extra", None)
     if extra is not None:
         ev["coverage"].update(extra(prop, agg))
-    os.makedirs(os.path.join(VERIF_DIR, "evidence"), exist_ok=True)
-    evp = os.path.join(VERIF_DIR, "evidence", f"{prop}.json")
+    os.makedirs(os.path.join(OUT_DIR, "evidence"), exist_ok=True)
+    evp = os.path.join(OUT_DIR, "evidence", f"{prop}.json")
     with open(evp + ".tmp", "w") as f:
         json.dump(trace.canon(ev), f, indent=1, sort_keys=True)
     os.replace(evp + ".tmp", evp)
